@@ -5,6 +5,10 @@ TECH = "contract-based deductive verification: pyvc VC generation from the real 
 TRUST = ("home-made VC generator (Python subset semantics of DESIGN section 2), assumed external contracts listed in the evidence "
          "file's trusted_base, solver soundness; see evidence.assumptions")
 CLAIMED = {
+    "C02": ("proof", "The class invariant SPANS (0 <= full start <= span start <= span end <= full end <= len(text), span starts at and covers the "
+            "matched token, pin-cite offsets inside the text, pin-cite text inside the pin-cite span) is a discharged postcondition of every function that "
+            "constructs or extends a citation's offsets (match_on_tokens window contract WIN, extract_pin_cite, add_post_citation, add_defendant, "
+            "add_pre_citation, add_law/journal_metadata, the add_metadata chain, _extract_full/shortform/supra/id_citation), for all texts under the token-partition precondition PART.", "6/C02"),
     "C06": ("proof", "All obligations of the ten resolve.py functions (quantified loop invariant with ghost res/pos/src/fidx on resolve_citations, "
             "uniqueness contracts of the five resolvers) are discharged for all citation lists of any length; no bound.", "6/C06"),
     "C07": ("proof", "Uniqueness ('never guesses') postconditions of the resolvers written from the statement, the pin-cite window of "
@@ -20,6 +24,11 @@ NA = {
     "C14": "all clauses are about the Hyperscan C library (what scan reports, what loadb raises); no Python body to put under contract (DESIGN 6/C14)",
     "C15": "quantifies over hash seeds, thread schedules and process histories, which a function contract cannot observe (DESIGN 6/C15)",
 }
+CMD = {"C13": "python3-vt /verif/checks/c13.py --tier {tier}"}
+CLAIMED["C13"] = ("proof", "For every one of the ~6,826 extractors with filter strings built from the installed reporters-db: the regular language of texts that "
+    "contain a match of the extractor's pattern (translated from CPython's own parse tree) minus the language of texts containing one of its filter "
+    "strings is empty -- one SMT regular-language query per extractor, for all texts over the full alphabet (alphabet reduction executed per query). "
+    "The three re.I extractors are split at the known case-folding region (U+017F, U+0130, U+0131).", "6/C13")
 ids = [f"C{i:02d}" for i in range(1, 21)]
 checks = []
 for i in ids:
@@ -27,8 +36,8 @@ for i in ids:
         lvl, text, ref = CLAIMED[i]
         checks.append({
             "property_id": i,
-            "quick_cmd": f"python3-vt -m pyvc.check {i} --tier quick",
-            "thorough_cmd": f"python3-vt -m pyvc.check {i} --tier thorough",
+            "quick_cmd": CMD.get(i, "python3-vt -m pyvc.check {id} --tier {tier}").format(id=i, tier="quick"),
+            "thorough_cmd": CMD.get(i, "python3-vt -m pyvc.check {id} --tier {tier}").format(id=i, tier="thorough"),
             "evidence_file": f"/verif/evidence/{i}.json",
             "replay_cmd_template": f"python3-vt -m pyvc.check {i} --replay {{path}}",
             "engine": "pyvc",
